@@ -495,9 +495,17 @@ Section Progress.
            match k with 0 => eret tt | S k' => write [10%N] ;;; write (row_text row) ;;; rows k' (S row) end) k row).
   Proof. induction k as [|k IH]; intros row; [apply nf_ret|]. nf_all. apply IH. Qed.
   Lemma ni_page cands : ni (page_completions_simple U cfg cands).
-  Proof. unfold page_completions_simple. cbv zeta. apply ni_bind; [apply ni_rows|]. intros _. ni_all. Qed.
+  Proof.
+    unfold page_completions_simple. cbv zeta.
+    destruct (Nat.eqb _ 0); [apply ni_panic|]. destruct (Nat.eqb _ 0); [apply ni_panic|].
+    apply ni_bind; [apply ni_rows|]. intros _. ni_all.
+  Qed.
   Lemma nf_page cands : nf (page_completions_simple U cfg cands).
-  Proof. unfold page_completions_simple. cbv zeta. apply nf_bind; [apply nf_rows|]. intros _. nf_all. Qed.
+  Proof.
+    unfold page_completions_simple. cbv zeta.
+    destruct (Nat.eqb _ 0); [apply nf_panic|]. destruct (Nat.eqb _ 0); [apply nf_panic|].
+    apply nf_bind; [apply nf_rows|]. intros _. nf_all.
+  Qed.
 
   Lemma ni_complete_line fuel : ni (complete_line U cfg fuel).
   Proof.
